@@ -26,7 +26,7 @@ def main():
 
     t0 = time.time()
     if mode == "batch":
-        from .checks import leg_of
+        from .checks import idx_of, leg_of
 
         root = job["root"]
         tier = job["tier"]
@@ -53,7 +53,7 @@ def main():
             faulthandler.dump_traceback_later(per_run_cap, exit=True, file=sys.__stderr__)
             _t_run = time.time()
             try:
-                case = m.generate(seed, tier, i)
+                case = m.generate(seed, tier, idx_of(job["check"], i))
                 case["property"] = prop
                 case["idx"] = i
                 res = runner.run_case(m, case)
